@@ -295,3 +295,12 @@ def write_target(n):
 def loc(fn, n):
     f = n.get('f') or fn.get('file')
     return '%s:%s' % (f, n.get('l'))
+
+
+def parents(root):
+    """id(node) -> parent node"""
+    par = {}
+    for x in walk(root):
+        for k in kids(x):
+            par[id(k)] = x
+    return par
